@@ -192,6 +192,25 @@ def case_1d(ctx, index, rng: random.Random):
             rec.fail(monitor="C03.history.equiv", op="mixed", symptom=f"mixed history refused valid input: {type(e).__name__}", diff=["raised"],
                      mechanism=mech_for(e), detail={"error": str(e)[:200], **desc})
     _compare_paths(rec, finals, desc, data, True, nan_in_fill=with_nan and any(math.isnan(x) for x in data))
+    if not keep_missed:
+        # tracking switched off: values outside the bins change nothing at all - the recorded statistics included (whichever way
+        # the values came in, they are those of the values that are in a bin)
+        with attach.quiet():
+            ins = [(float(v), 1.0 if wts is None else float(wts[i])) for i, v in enumerate(data)
+                   if not math.isnan(v) and any((a <= v < b) or (k == len(pairs) - 1 and v == b) for k, (a, b) in enumerate(pairs))]
+            want_w = sum(w for _, w in ins)
+            want_s = sum(v * w for v, w in ins)
+            for nme, hh in (("construct", locals().get("ha")), ("fill", locals().get("hb")), ("fill_n", locals().get("hc")), ("mixed", locals().get("hd"))):
+                if hh is None or nme not in finals:
+                    continue
+                st_ = hh.statistics
+                gw, gs = float(st_.weight), float(st_.sum)
+                if math.isnan(gw):
+                    continue  # invalid statistics claim nothing
+                scale_ = sum(abs(v * w) for v, w in ins) + 1e-300
+                if abs(gw - want_w) > 1e-9 * (want_w + 1e-300) or abs(gs - want_s) > 1e-9 * scale_:
+                    rec.fail(monitor="C03.history.equiv", op=nme, symptom="with tracking of missed values switched off, values outside the bins changed the recorded statistics", diff=["statistics"],
+                             detail={"weight": gw, "expected_weight": want_w, "sum": gs, "expected_sum": want_s, **desc})
     all_edges = sorted(set(bins_arr.ravel().tolist()))
     fin = [v for v in data if not math.isnan(v)]
     adjacent = any(gen.is_edge_adjacent(v, all_edges) for v in fin)
@@ -212,10 +231,6 @@ def _compare_paths(rec, finals, desc, data, one_d, nan_in_fill):
         if nme == ref_name:
             continue
         d = [k for k in ref if finals[nme][k] != ref[k]]
-        if desc.get("gapped"):
-            # under/overflow of gapped bins read as "unknown"; construction / fill_n report NaN from the start, single
-            # fills keep counting until a gap is hit: not compared (soundness rule, DESIGN.md section 3)
-            d = [k for k in d if k not in ("underflow", "overflow")]
         if d:
             # fill(NaN) is counted as overflow / missed by fill (known finding): paths containing single fills of NaN differ by it
             mech = None
